@@ -86,7 +86,7 @@ LStart == /\ up /\ ~closed /\ lpc = "idle" /\ runs < MaxRuns /\ runs' = runs + 1
           /\ Same(<<origin, final, liveDoc, stage, aside, loaded, cursor, fetched, up>>) /\ UNCHANGED Ghosts /\ UNCHANGED RdVars
           /\ Emit(<<"start">>)
 \* refresh only: read locations and stored signer under the read lock (collapsed to one step: needs no writer)
-LInfo == /\ up /\ lpc = "tmp" /\ kind = "refresh" /\ wlock = "none" /\ (IF closed THEN L("failed") ELSE L("info"))   \* (a closed store cannot be read)
+LInfo == /\ up /\ lpc = "tmp" /\ kind = "refresh" /\ wlock = "none" /\ (IF closed \/ ~final.open THEN L("failed") ELSE L("info"))   \* (a closed store cannot be read)
          /\ Same(<<origin, final, liveDoc, stage, aside, tmpfile, loaded, wlock, kind, cursor, fetched, runs, up>>) /\ UNCHANGED Ghosts /\ UNCHANGED RdVars
          /\ Emit(<<"info">>)
 \* the transfer is under way: the download file holds a prefix of the body (a crash point of its own; an origin that is down
@@ -126,6 +126,14 @@ Swapped == /\ ver' = ver + 1 /\ Same(<<seen, floor, maxDone>>)
 LSwapClosed == /\ up /\ closed /\ lpc = "locked" /\ L("failed") /\ wlock' = "none"
                /\ Same(<<origin, final, liveDoc, stage, aside, tmpfile, loaded, kind, cursor, fetched, runs, up>>) /\ UNCHANGED Ghosts /\ UNCHANGED RdVars
                /\ Emit(<<"swapClosed">>)
+\* the swap fails (the storage layer refuses it; injected before anything is moved). The code does not trust a store whose swap
+\* failed: it closes it and keeps the entry - with the disk backend every later lookup in this CRL is an error and the connection
+\* is denied (fail closed, C09) until the next instance opens the directory again; a closed memory store keeps answering. The
+\* contents on disk are untouched, and an entry that had nothing in force is still not loaded.
+LSwapFault == /\ up /\ ~closed /\ lpc = "locked" /\ L("failed") /\ wlock' = "none"
+              /\ final' = IF Disk THEN [final EXCEPT !.open = FALSE] ELSE final
+              /\ Same(<<origin, liveDoc, stage, aside, tmpfile, loaded, kind, cursor, fetched, runs, up>>) /\ UNCHANGED Ghosts /\ UNCHANGED RdVars
+              /\ Emit(<<"swapFault">>)
 LMapSwap == /\ up /\ ~closed /\ ~Disk /\ lpc = "locked"
             /\ final' = [exists |-> TRUE, keys |-> stage.keys, meta |-> TRUE, open |-> TRUE] /\ liveDoc' = DocOf(fetched.keys) /\ stage' = NoStage
             /\ L("replaced") /\ Swapped
@@ -168,7 +176,7 @@ RBegin(r) == /\ up /\ ~closed /\ rpc[r] = "idle" /\ wlock = "none" /\ rlock' = r
              /\ floor' = [floor EXCEPT ![r] = maxDone]
              /\ Same(<<origin, final, liveDoc, stage, aside, tmpfile, loaded, wlock, lpc, kind, cursor, fetched, runs, ver, seen, maxDone, up>>)
 RLookup(r) == /\ up /\ rpc[r] = "locked" /\ rpc' = [rpc EXCEPT ![r] = "got"]
-              /\ seen' = [seen EXCEPT ![r] = IF loaded THEN ver ELSE @]
+              /\ seen' = [seen EXCEPT ![r] = IF loaded /\ final.open THEN ver ELSE @]        \* (a closed store answers with an error)
               /\ Same(<<origin, final, liveDoc, stage, aside, tmpfile, loaded, wlock, rlock, lpc, kind, cursor, fetched, runs, ver, floor, maxDone, up>>)
 REnd(r) == /\ up /\ rpc[r] = "got" /\ rlock' = rlock \ {r} /\ rpc' = [rpc EXCEPT ![r] = "idle"]
            /\ maxDone' = IF seen[r] > maxDone THEN seen[r] ELSE maxDone
@@ -205,7 +213,7 @@ Reprovision == /\ up /\ closed /\ lpc = "idle" /\ closed' = FALSE
                /\ UNCHANGED <<origin, liveDoc, wlock, rlock, lpc, kind, rpc, cursor, fetched, runs, up>> /\ UNCHANGED Ghosts
                /\ Emit(<<"reprovision">>)
 
-Next == Publish \/ Shutdown \/ Reprovision \/ LSwapClosed \/ LStart \/ LInfo \/ LFetchBegin \/ LFetch \/ LStage \/ LParse \/ LVerify \/ LLock \/ LMapSwap \/ LCloseOld \/ LCloseNew \/ LMvAside
+Next == Publish \/ Shutdown \/ Reprovision \/ LSwapClosed \/ LSwapFault \/ LStart \/ LInfo \/ LFetchBegin \/ LFetch \/ LStage \/ LParse \/ LVerify \/ LLock \/ LMapSwap \/ LCloseOld \/ LCloseNew \/ LMvAside
         \/ LMvNew \/ LRmOld \/ LReopen \/ LUnlock \/ LFail \/ LDone \/ Crash \/ Restart
         \/ \E r \in Readers : RBegin(r) \/ RLookup(r) \/ REnd(r)
 Spec == Init /\ [][Next]_vars
@@ -213,11 +221,11 @@ View == <<origin, final, liveDoc, stage, aside, tmpfile, loaded, wlock, rlock, l
 
 (* =============================== properties ============================= *)
 \* C08: whenever a reader is inside its critical section of a loaded entry, the live store is open and holds exactly one complete accepted list
-Atomic == \A r \in Readers : (rpc[r] = "locked" /\ loaded) => (final.exists /\ final.open /\ final.meta /\ liveDoc.some /\ final.keys = liveDoc.keys)
+Atomic == \A r \in Readers : (rpc[r] = "locked" /\ loaded /\ final.open) => (final.exists /\ final.meta /\ liveDoc.some /\ final.keys = liveDoc.keys)
 \* C08: once the new list has been observed, the old one is never observed again (per reader, and in real-time order across readers)
-Monotone == [][\A r \in Readers : seen'[r] >= seen[r] /\ (rpc[r] = "locked" /\ rpc'[r] = "got" /\ loaded => seen'[r] >= floor[r])]_vars
+Monotone == [][\A r \in Readers : seen'[r] >= seen[r] /\ (rpc[r] = "locked" /\ rpc'[r] = "got" /\ loaded /\ final.open => seen'[r] >= floor[r])]_vars
 \* C08: a failed run leaves the previous list fully in force
-FailKeeps == [][(up /\ up' /\ (lpc' = "failed" \/ lpc = "failed")) => (final' = final /\ liveDoc' = liveDoc /\ loaded' = loaded)]_vars
+FailKeeps == [][(up /\ up' /\ (lpc' = "failed" \/ lpc = "failed")) => ([final' EXCEPT !.open = final.open] = final /\ liveDoc' = liveDoc /\ loaded' = loaded)]_vars
 \* C13: lock discipline: never a writer together with readers; the store is only replaced under the write lock
 LockOK == ~(wlock # "none" /\ rlock # {})
 SwapLocked == [][(up /\ up' /\ final'.keys # final.keys) => wlock = "ldr"]_vars
